@@ -38,9 +38,6 @@ package dataset
 
 // every version of an entity is evaluated exactly once, oldest first, one step behind the iterator; only the first
 // evaluation says isFirst, only the one after the loop says isLast
-//@ assumed store.SeekEntityChanges
-//@   pure
-//@   ensures len(result) == 14
 
 // the per-version callback: the instruction the strategy returns is collected BEFORE the batched flush is considered (the
 // strategy buffers the change-log keys of the versions it deleted and hands them to whichever flush comes next: flushing
@@ -120,3 +117,44 @@ package dataset
 //@     assert [C12:latest-pointer-rewritten-while-writers-are-excluded] exists l int :: has($held, l) && kindOf(l) == lockKind("server.Dataset", "WriteLock")
 //@   loop $1:2
 //@     invariant -1 <= $i && $i < len(ops.RewriteKeys) && len(ops.RewriteKeys) == len(ops.RewriteValues)
+
+// ---------------------------------------------------------------------------
+// C02: the dataset iterator behind GET /changes?reverse=true. An opened iterator is restricted to the dataset's change
+// log, positioned at the requested offset and runs in the requested direction; Next hands out the change at the iterator
+// position and moves exactly one change on; an exhausted iterator keeps the last position it handed out, so that the
+// token read afterwards (forward: last offset + 1, reverse: last offset, nothing handed out: the starting offset) resumes
+// exactly there.
+
+//@ inline (*BadgerDatasetIterator).ensureTxn
+
+//@ unit (*BadgerDatasetIterator).Next
+//@   prop C02
+//@   ghost posG int = 0
+//@   ghost validG bool = false
+//@   requires b != nil && b.db != nil
+//@   requires-inv [an-opened-iterator-matches-the-requested-dataset-and-direction] b.txn != nil ==> b.it != nil && (has($itRev, b.it) <==> b.inverse) && $itTxn[b.it] == b.txn && $itPlen[b.it] == 6 && $itPcl[b.it] == 4 && $itPds[b.it] == b.datasetID && len(b.datasetPrefix) == 6 && encBE16(b.datasetPrefix, 0) == 4 && encBE32(b.datasetPrefix, 2) == b.datasetID
+//@   ensures [an-opened-iterator-matches-the-requested-dataset-and-direction] b.txn != nil && b.it != nil && (has($itRev, b.it) <==> b.inverse) && $itTxn[b.it] == b.txn && $itPlen[b.it] == 6 && $itPcl[b.it] == 4 && $itPds[b.it] == b.datasetID && len(b.datasetPrefix) == 6 && encBE16(b.datasetPrefix, 0) == 4 && encBE32(b.datasetPrefix, 2) == b.datasetID
+//@   ensures [an-exhausted-iterator-keeps-the-last-position-it-handed-out] !result && !validG ==> b.offset == old(b.offset) && b.item == old(b.item) && b.startingOffset == old(b.startingOffset)
+//@   ensures [the-change-handed-out-is-the-one-at-the-iterator-position] result ==> validG && 0 <= posG && posG < N(b.txn) && kcl(K(b.txn, posG)) == 4 && kf32(K(b.txn, posG)) == b.datasetID && b.offset == kseq(K(b.txn, posG))
+//@   ensures [next-moves-exactly-one-change-in-the-requested-direction] result ==> $itPos[b.it] == (b.inverse ? posG - 1 : posG + 1)
+//@   safe slice
+//@   at @ensureTxn call NewIterator#1 before
+//@     assert [iterator-restricted-to-the-change-log-of-this-dataset-in-the-requested-direction] len(opt.Prefix) == 6 && encBE16(opt.Prefix, 0) == 4 && encBE32(opt.Prefix, 2) == b.datasetID && (opt.Reverse <==> b.inverse)
+//@   at @ensureTxn call Seek#1 before
+//@     assert [positioned-at-the-requested-offset] len(key) == 14 && encBE16(key, 0) == 4 && encBE32(key, 2) == b.datasetID && encBE64(key, 6) == b.startingOffset
+//@   at call ValidForPrefix#1
+//@     ghost validG := $result
+//@     ghost posG := $itPos[b.it]
+
+//@ unit (*BadgerDatasetIterator).NextOffset
+//@   prop C02
+//@   requires b != nil
+//@   ensures [token-when-nothing-was-handed-out-is-the-starting-offset] isnil(b.item) ==> result == b.startingOffset
+//@   ensures [forward-token-is-one-past-the-last-change-handed-out] !isnil(b.item) && !b.inverse ==> result == b.offset + 1
+//@   ensures [reverse-token-is-the-last-change-handed-out] !isnil(b.item) && b.inverse ==> result == b.offset
+//@   modifies none
+
+//@ unit (*BadgerDatasetIterator).Inverse
+//@   prop C02
+//@   requires b != nil && b.txn == nil && b.it == nil
+//@   ensures [reverse-reading-from-offset-zero-starts-at-the-newest-change] b.inverse && (old(b.startingOffset) == 0 ==> b.startingOffset == 18446744073709551615) && (old(b.startingOffset) != 0 ==> b.startingOffset == old(b.startingOffset))
